@@ -10,8 +10,8 @@ import (
 	"encoding/binary"
 	"encoding/hex"
 	"fmt"
-	"math/big"
 	"io"
+	"math/big"
 	"os"
 	"path/filepath"
 	"sort"
@@ -58,7 +58,8 @@ func DetAccount(tag string) *account.Account {
 type Chain struct {
 	Dir     string
 	Ledger  *ledger.Ledger
-	BK      *account.Account
+	BK      *account.Account   // first bookkeeper (the only one on a solo chain)
+	BKs     []*account.Account // all bookkeepers (multi-bookkeeper "dbft"-type chains)
 	Genesis *types.Block
 }
 
@@ -72,10 +73,34 @@ func SetupSoloConfig(bk *account.Account) {
 	config.DefConfig.Common.EnableEventLog = true
 }
 
+// SetupMultiConfig points the global config at a non-VBFT chain with several bookkeepers
+// (consensus type "dbft": headers need n-(n-1)/3 signatures of the full bookkeeper list).
+func SetupMultiConfig(bks []*account.Account) {
+	config.DefConfig.Genesis.ConsensusType = config.CONSENSUS_TYPE_DBFT
+	var keys []string
+	for _, b := range bks {
+		keys = append(keys, hex.EncodeToString(keypair.SerializePublicKey(b.PublicKey)))
+	}
+	config.DefConfig.Genesis.DBFT.Bookkeepers = keys
+	config.DefConfig.P2PNode.NetworkId = 1000 + uint32(len(bks))
+	config.DefConfig.P2PNode.EVMChainId = config.GetEip155ChainID(config.DefConfig.P2PNode.NetworkId)
+	config.DefConfig.Common.EnableEventLog = true
+}
+
+// NewMulti creates (or reopens) a multi-bookkeeper ledger in dir.
+func NewMulti(dir string, bks []*account.Account) (*Chain, error) {
+	SetupMultiConfig(bks)
+	c := &Chain{Dir: dir, BK: bks[0], BKs: bks}
+	if err := c.Open(); err != nil {
+		return nil, err
+	}
+	return c, nil
+}
+
 // NewSolo creates (or reopens) a solo ledger in dir.
 func NewSolo(dir string, bk *account.Account) (*Chain, error) {
 	SetupSoloConfig(bk)
-	c := &Chain{Dir: dir, BK: bk}
+	c := &Chain{Dir: dir, BK: bk, BKs: []*account.Account{bk}}
 	if err := c.Open(); err != nil {
 		return nil, err
 	}
@@ -130,7 +155,7 @@ func (c *Chain) MakeBlock(txs []*types.Transaction, ts uint32) (*types.Block, er
 }
 
 func (c *Chain) MakeBlockAt(height uint32, prevHash common.Uint256, txs []*types.Transaction, ts uint32) (*types.Block, error) {
-	nextBookkeeper, err := types.AddressFromBookkeepers([]keypair.PublicKey{c.BK.PublicKey})
+	nextBookkeeper, err := types.AddressFromBookkeepers(c.bkKeys())
 	if err != nil {
 		return nil, err
 	}
@@ -160,17 +185,36 @@ func (c *Chain) MakeBlockAt(height uint32, prevHash common.Uint256, txs []*types
 	return block, nil
 }
 
-// Seal (re-)signs block.Header with the bookkeeper key.
+func (c *Chain) bkKeys() []keypair.PublicKey {
+	var ks []keypair.PublicKey
+	for _, b := range c.BKs {
+		ks = append(ks, b.PublicKey)
+	}
+	return ks
+}
+
+// Seal (re-)signs block.Header: the full bookkeeper list, signed by the first
+// n-(n-1)/3 bookkeepers (all of them on a solo chain).
 func (c *Chain) Seal(block *types.Block) error {
+	n := len(c.BKs)
+	return c.SealWith(block, c.BKs[:n-(n-1)/3])
+}
+
+// SealWith lists every bookkeeper and attaches signatures of the given signers only.
+func (c *Chain) SealWith(block *types.Block, signers []*account.Account) error {
 	block.Header.Bookkeepers = nil
 	block.Header.SigData = nil
 	h := ResetHash(block)
-	sig, err := signature.Sign(c.BK, h[:])
-	if err != nil {
-		return err
+	var sigs [][]byte
+	for _, a := range signers {
+		sig, err := signature.Sign(a, h[:])
+		if err != nil {
+			return err
+		}
+		sigs = append(sigs, sig)
 	}
-	block.Header.Bookkeepers = []keypair.PublicKey{c.BK.PublicKey}
-	block.Header.SigData = [][]byte{sig}
+	block.Header.Bookkeepers = c.bkKeys()
+	block.Header.SigData = sigs
 	return nil
 }
 
